@@ -29,11 +29,11 @@ BOUNDS = {
     "quick": dict(bases=5, maxpos=40, soup=3, chains=False, nest="{40, 150}", tables_every=3),
     "thorough": dict(bases=12, maxpos=160, soup=4, chains=True, nest="{40, 150, 400}", tables_every=1),
 }
-POSOPS = '{"Prefix", "Suffix", "CutChars", "DelLine", "DupLine", "SwapLines", "DelToken", "DupToken", "SwapTokens", "BreakLine", "JoinLines", "OddSpace"}'
+POSOPS = '{"Prefix", "Suffix", "CutChars", "DelLine", "DupLine", "SwapLines", "DelToken", "DupToken", "SwapTokens", "BreakLine", "JoinLines", "OddSpace", "Flatten"}'
 
 
 def base_programs(wd, n, rng):
-    consts = dict(MaxItems=7, MaxDepth=3, Reps="{2}", FVariants='{"plain", "multi", "bracegroup"}', SVariants='{"plain", "strdelim"}', Allowed='{"F","K","C","E","A","X","S","M","R"}')
+    consts = dict(MaxItems=7, MaxDepth=3, Reps="{2}", FVariants='{"plain", "multi", "bracegroup"}', SVariants='{"plain", "strdelim", "trailing"}', CVariants='{"if", "try"}', Allowed='{"F","K","C","E","A","X","S","M","R"}')
     m = tlc.run("Program", tlc.cfg(consts, spec="Spec", invariants=["Sane"]), wd, dump=True, cfgname="Program_bases.cfg", coverage=False)
     chunks = [c for c in dump_chunks(m.dump) if "done = TRUE" in c]
     rng.shuffle(chunks)
